@@ -173,6 +173,13 @@ def gen_case(seed, idx, tier="quick"):
         args["locus_tag_prefix"] = None  # drawn from the PRNG
     if rng.random() < 0.15:
         args["submitter_lab_name"] = None
+    if args["locus_tag_prefix"] and rng.random() < 0.15:
+        # genes that already carry a locus tag made of the very prefix requested now (an earlier iteration of the same
+        # genome): the tags of this export must still be unique and step by the requested size
+        for c_ in colls:
+            for g_ in c_["genes"]:
+                if rng.random() < 0.5:
+                    g_["locus_tag"] = f"{args['locus_tag_prefix']}_{rng.choice([1, 5, 10, 20]) * rng.randint(1, 3)}"
     perturb = rng.choice([["seed", rng.randint(0, 10 ** 6)], ["draw", rng.randint(1, 50)], ["seed", 0], ["none"]])
     return {"specs": colls, "prior": prior, "args": args, "hs_a": a, "hs_b": b, "perturb": perturb, "faults": rng.random() < cfg["fault_p"],
             # the simulator owns the process-global PRNG: its state at the start of every request is part of the case
